@@ -1,7 +1,7 @@
 //! C20 harness: the real handle_peer_message / filter_peer, observed at the peer of a scripted
 //! connection.  Result lines start with "R " (the crate prints a freshly created id on stdout).
 //!
-//!   p <iface|-> <member|-> <typ c|s|r|e|i> <serial> <sender|-> <reply serial of the incoming message|->
+//!   p <iface|-> <member|-> <typ c|s|r|e|i> <serial> <sender|-> <reply serial of the incoming message|-> <flags> <destination|-> <body string|->
 //!        handle_peer_message on a message with that header, then a marker signal; everything
 //!        the peer receives before the marker is what the call wrote
 //!   u <12 bytes hex> <12 bytes hex>
@@ -13,6 +13,13 @@
 //!        (private mount namespace only) three GetMachineId calls in this process, each with another
 //!        draw in the fixture; nothing is removed, no file path is assumed: only the ids returned count.
 //!        Used with the process environment (TMPDIR, HOME, XDG_RUNTIME_DIR) varied by the check.
+//!   n <12 bytes hex> <12 bytes hex> <12 bytes hex>
+//!        (namespace with a small tmpfs over /tmp) /tmp is filled until nothing more can be written, then
+//!        GetMachineId (storing the id must fail); the filler is removed; GetMachineId twice more
+//!   race <processes> <rounds>
+//!        (namespace, REAL /dev/urandom) per round: /tmp is emptied, <processes> child processes of this
+//!        binary are started, each sets up its connection and waits; all are released together and
+//!        call GetMachineId three times; prints one line per round with every id returned
 //!   f    fallback without a namespace: a real draw; any existing /tmp/dbus_machine_uuid is saved
 //!        and restored
 //!
@@ -159,6 +166,15 @@ fn opt_string(s: &str) -> Option<String> {
 }
 
 fn make_msg(iface: &str, member: &str, typ: &str, serial: u32, sender: &str, rs: &str) -> MarshalledMessage {
+    make_msg_full(iface, member, typ, serial, sender, rs, 0, "-", "-")
+}
+
+#[allow(clippy::too_many_arguments)]
+fn make_msg_full(iface: &str, member: &str, typ: &str, serial: u32, sender: &str, rs: &str, flags: u8, dest: &str, body: &str) -> MarshalledMessage {
+    let mut b = MarshalledMessageBody::new();
+    if let Some(text) = opt_string(body) {
+        b.push_param(text.as_str()).unwrap();
+    }
     MarshalledMessage {
         typ: match typ {
             "c" => MessageType::Call,
@@ -173,11 +189,12 @@ fn make_msg(iface: &str, member: &str, typ: &str, serial: u32, sender: &str, rs:
             object: Some("/x".to_string()),
             serial: NonZeroU32::new(serial),
             sender: opt_string(sender),
+            destination: opt_string(dest),
             response_serial: if rs == "-" { None } else { NonZeroU32::new(rs.parse().unwrap()) },
             ..Default::default()
         },
-        flags: 0,
-        body: MarshalledMessageBody::new(),
+        flags,
+        body: b,
     }
 }
 
@@ -253,6 +270,27 @@ fn get_id_msg() -> MarshalledMessage {
 fn main() {
     std::panic::set_hook(Box::new(|i| eprintln!("panic: {}", i)));
     let in_ns = std::env::var("VERIF_C20_NS").map(|v| v == "1").unwrap_or(false);
+    if std::env::args().nth(1).as_deref() == Some("racechild") {
+        if !in_ns {
+            return;
+        }
+        // connection first, then tell the parent we are ready and wait for the common start
+        let mut sess = Sess::new();
+        {
+            use std::io::Write;
+            let mut o = std::io::stdout();
+            o.write_all(b"r").unwrap();
+            o.flush().unwrap();
+        }
+        let mut go = [0u8; 1];
+        let _ = std::io::stdin().read_exact(&mut go);
+        for _ in 0..3 {
+            let (h, r) = sess.observe(&get_id_msg());
+            println!("\nC {};{}", h, r.replace(';', "/"));
+        }
+        rbverif::conn::cleanup_scratch();
+        return;
+    }
     let fixture = std::env::var("VERIF_C20_FIXTURE").ok();
     let stdin = std::io::stdin();
     let mut sess = Sess::new();
@@ -260,13 +298,13 @@ fn main() {
         let line = line.unwrap();
         let parts: Vec<&str> = line.split(' ').collect();
         match parts.as_slice() {
-            ["p", iface, member, typ, serial, sender, rs] => {
+            ["p", iface, member, typ, serial, sender, rs, flags, dest, body] => {
                 let is_get_id = *member == hex(b"GetMachineId");
                 if is_get_id && !in_ns {
                     println!("R refused");
                     continue;
                 }
-                let msg = make_msg(iface, member, typ, serial.parse().unwrap(), sender, rs);
+                let msg = make_msg_full(iface, member, typ, serial.parse().unwrap(), sender, rs, flags.parse().unwrap(), dest, body);
                 let filter = filter_peer(&msg.dynheader);
                 let pre = if in_ns { read_id_file() } else { "unobserved".to_string() };
                 let draw = if in_ns { hex(&urandom12()) } else { "unobserved".to_string() };
@@ -335,6 +373,85 @@ fn main() {
                     out.push_str(&format!(" handled{}={} r{}={}", i + 1, h, i + 1, r));
                 }
                 println!("R{} fixed_path={}", out, read_id_file());
+            }
+            ["n", d1, d2, d3] => {
+                let fx = match (&fixture, in_ns) {
+                    (Some(f), true) => f.clone(),
+                    _ => {
+                        println!("R nofixture");
+                        continue;
+                    }
+                };
+                let _ = std::fs::remove_file(ID_PATH);
+                // fill /tmp: big chunks first, then single bytes, until nothing more can be written
+                let filler = "/tmp/verif_filler";
+                {
+                    use std::io::Write;
+                    let mut f = std::fs::File::create(filler).unwrap();
+                    for chunk in [4096usize, 512, 64, 1] {
+                        let buf = vec![0x55u8; chunk];
+                        while f.write_all(&buf).is_ok() {}
+                    }
+                }
+                // is it really full? (a 32-byte file cannot be written)
+                let full = std::fs::write("/tmp/verif_probe", [0x41u8; 32]).is_err();
+                let _ = std::fs::remove_file("/tmp/verif_probe");
+                std::fs::write(&fx, unhex(d1)).unwrap();
+                let (h1, r1) = sess.observe(&get_id_msg());
+                let file1 = read_id_file();
+                let _ = std::fs::remove_file(filler);
+                std::fs::write(&fx, unhex(d2)).unwrap();
+                let (h2, r2) = sess.observe(&get_id_msg());
+                std::fs::write(&fx, unhex(d3)).unwrap();
+                let (h3, r3) = sess.observe(&get_id_msg());
+                let file3 = read_id_file();
+                let leftovers = std::fs::read_dir("/tmp").map(|d| d.count()).unwrap_or(0);
+                println!(
+                    "R full={} handled1={} r1={} file1={} handled2={} r2={} handled3={} r3={} file3={} files_in_tmp={}",
+                    full, h1, r1, file1, h2, r2, h3, r3, file3, leftovers
+                );
+            }
+            ["race", nproc, rounds] => {
+                if !in_ns {
+                    println!("R refused");
+                    continue;
+                }
+                let nproc: usize = nproc.parse().unwrap();
+                let rounds: usize = rounds.parse().unwrap();
+                let me = std::env::current_exe().unwrap();
+                for _ in 0..rounds {
+                    if let Ok(dir) = std::fs::read_dir("/tmp") {
+                        for e in dir.flatten() {
+                            let _ = std::fs::remove_file(e.path());
+                        }
+                    }
+                    let mut kids = Vec::new();
+                    for _ in 0..nproc {
+                        let mut c = std::process::Command::new(&me)
+                            .arg("racechild")
+                            .stdin(std::process::Stdio::piped())
+                            .stdout(std::process::Stdio::piped())
+                            .spawn()
+                            .unwrap();
+                        // wait until the child has its connection set up
+                        let mut ready = [0u8; 1];
+                        c.stdout.as_mut().unwrap().read_exact(&mut ready).unwrap();
+                        kids.push(c);
+                    }
+                    for c in kids.iter_mut() {
+                        use std::io::Write;
+                        let _ = c.stdin.as_mut().unwrap().write_all(b"g");
+                    }
+                    let mut ids = Vec::new();
+                    for mut c in kids {
+                        drop(c.stdin.take());
+                        let mut out = String::new();
+                        let _ = c.stdout.as_mut().unwrap().read_to_string(&mut out);
+                        let _ = c.wait();
+                        ids.push(out.lines().filter(|l| l.starts_with("C ")).map(|l| l[2..].to_string()).collect::<Vec<_>>().join("+"));
+                    }
+                    println!("R round={}", ids.join(","));
+                }
             }
             ["f"] => {
                 let saved = std::fs::read(ID_PATH).ok();
